@@ -100,8 +100,11 @@ def judge_tax(ctx, g, impl, model):
                                 v = [dist[x][z] + dist[y][z] for z in (set(dist[x]) & set(dist[y]))]
                                 if root:
                                     v.append(droot(x) + droot(y))
-                                return min(v)
+                                return min(v) if v else None
                             i, j = splen(a, c), splen(b, c)
+                            if i is None or j is None:
+                                ctx.fail('wup:reported-lowest-common-hypernym-is-connected-to-both-synsets', g, dict(where, lcs=c))
+                                continue
                             ls = [len(p) for p in chains[c]]
                             k = (max(ls) if ls else 0) + 1
                         cands.append((2 * k) / (i + j + 2 * k))
